@@ -986,40 +986,84 @@ CONTRACTS[IU + "w_tilde_curvature_preload_imaging_from"].gen = _g_preload
 CONTRACTS[IU + "w_tilde_curvature_preload_imaging_from"].nontrivial = lambda kernel_native, **kw: bool((kernel_native < 0).any())
 
 # ------------------------------------------------------------------------------------------------
-# dense w-tilde curvature matrix F = M^T W M  (np.dot / .T : outside the engine-A subset -> engine C only)
+# dense curvature matrices F = M^T W M and F = B^T N^-1 B (+ the configured diagonal term): np.dot, `.T`, `v[:, None]` and
+# column broadcasting are read through pyvc/ext/cdot.py (np.dot IS the matrix product: assumed facts D1-D3, validated
+# numerically at import); what is PROVED is that the code's composition of them is the fully expanded normal-equation sum
 # ------------------------------------------------------------------------------------------------
+from pyvc.ext import cdot as _cdot
+_cdot._selfcheck()
+_cdot.enable(VU + "curvature_matrix_via_w_tilde_from")
+_cdot.enable(VU + "curvature_matrix_via_mapping_matrix_from")
+
 contract(
-    VU + "curvature_matrix_via_w_tilde_from", props=["C04"], mode="bounded",
+    VU + "curvature_matrix_via_w_tilde_from", props=["C04"],
     types={"w_tilde": "real[2]", "mapping_matrix": "real[2]"}, returns="real[2]",
     let={"N": "mapping_matrix.shape[0]", "P": "mapping_matrix.shape[1]"},
     requires=["w_tilde.shape[0] == N", "w_tilde.shape[1] == N"],
     ensures=["result.shape[0] == P", "result.shape[1] == P",
              "forall(0, P, lambda i: forall(0, P, lambda j: result[i, j] == sumto(N, lambda p: sumto(N, lambda q:"
              " mapping_matrix[p, i] * w_tilde[p, q] * mapping_matrix[q, j]))))"],
-    note="bounded only: the body is np.dot(mapping_matrix.T, np.dot(w_tilde, mapping_matrix)); `.T` of a 2-D array is an attribute "
-         "(no extension hook) and np.dot is a BLAS call, so there is no loop to put an invariant on",
+    ghost_at={0: [
+        # a constant factor moves into a sum ...
+        dict(induct="n", lo=0, hi="N", stmt="forall(0, N, lambda p: forall(0, P, lambda i: forall(0, P, lambda j:"
+             " mapping_matrix[p, i] * sumto(n, lambda q: w_tilde[p, q] * mapping_matrix[q, j])"
+             " == sumto(n, lambda q: mapping_matrix[p, i] * w_tilde[p, q] * mapping_matrix[q, j]))))"),
+        # ... so (M^T (W M))[i, j], which is what the two np.dot calls compute, is the double sum of the statement
+        dict(induct="n", lo=0, hi="N", stmt="forall(0, P, lambda i: forall(0, P, lambda j:"
+             " sumto(n, lambda p: mapping_matrix[p, i] * sumto(N, lambda q: w_tilde[p, q] * mapping_matrix[q, j]))"
+             " == sumto(n, lambda p: sumto(N, lambda q: mapping_matrix[p, i] * w_tilde[p, q] * mapping_matrix[q, j]))))"),
+    ]},
     sentence={"sumto": "the dense w-tilde curvature matrix is M^T W M"},
 )
 
+
+def _wrap_fmap(kw):
+    from autoarray.inversion.inversion.settings import SettingsInversion
+    kw["settings"] = SettingsInversion(no_regularization_add_to_curvature_diag_value=float(kw["settings"][0]))
+    kw["no_regularization_index_list"] = [int(v) for v in kw["no_regularization_index_list"]]
+    kw["add_to_curvature_diag"] = bool(kw["add_to_curvature_diag"])
+    return kw
+
+
+_BNB = "sumto({n}, lambda d: mapping_matrix[d, i] * mapping_matrix[d, j] / noise_map[d] ** 2)"
 contract(
-    VU + "curvature_matrix_via_mapping_matrix_from", props=["C04"], mode="bounded",
-    types={"mapping_matrix": "real[2]", "noise_map": "real[1]"}, returns="real[2]",
-    let={"N": "mapping_matrix.shape[0]", "P": "mapping_matrix.shape[1]"},
-    requires=["noise_map.shape[0] == N", "forall(0, N, lambda d: noise_map[d] > 0)"],
+    # the SettingsInversion argument is read as the one-element array of the only value the function uses (`attrs`: assumed in the
+    # proof, re-checked on the real object at every run-time evaluation); the list of parameters without regularization as int[1]
+    VU + "curvature_matrix_via_mapping_matrix_from", props=["C04"],
+    types={"mapping_matrix": "real[2]", "noise_map": "real[1]", "add_to_curvature_diag": "bool", "no_regularization_index_list": "int[1]",
+           "settings": "real[1]"}, returns="real[2]",
+    attrs={"settings.no_regularization_add_to_curvature_diag_value": "settings[0]"}, rt_wrap=_wrap_fmap,
+    let={"N": "mapping_matrix.shape[0]", "P": "mapping_matrix.shape[1]", "L": "no_regularization_index_list.shape[0]"},
+    requires=["noise_map.shape[0] == N", "forall(0, N, lambda d: noise_map[d] > 0)", "settings.shape[0] == 1",
+              "forall(0, L, lambda k: 0 <= no_regularization_index_list[k] and no_regularization_index_list[k] < P)"],
     ensures=["result.shape[0] == P", "result.shape[1] == P",
-             # mapping formalism: F = B^T N^-1 B (called without the diagonal term)
-             "forall(0, P, lambda i: forall(0, P, lambda j: result[i, j] == sumto(N, lambda d:"
-             " mapping_matrix[d, i] * mapping_matrix[d, j] / noise_map[d] ** 2)))"],
-    note="bounded only: array broadcasting `mapping_matrix / noise_map[:, None]` and np.dot are outside the engine-A subset; generated "
-         "with the default flags (add_to_curvature_diag=False), the diagonal term is covered by curvature_matrix_with_added_to_diag_from",
-    sentence={"sumto": "the curvature matrix of the mapping formalism is B^T N^-1 B"},
+             # mapping formalism: F = B^T N^-1 B ...
+             "forall(0, P, lambda i: forall(0, P, lambda j: implies(i != j or not add_to_curvature_diag, result[i, j] == "
+             + _BNB.format(n="N") + ")))",
+             # ... plus only the configured small diagonal term, once per listed parameter without regularization
+             "forall(0, P, lambda i: forall(0, P, lambda j: implies(i == j and add_to_curvature_diag, result[i, j] == "
+             + _BNB.format(n="N") + " + sumto(L, lambda k: (settings[0] if no_regularization_index_list[k] == i else 0)))))"],
+    ghost_at={0: [
+        # (b_i / s)(b_j / s) summed, which is what `array = B / s[:, None]; np.dot(array.T, array)` computes, is b_i b_j / s^2 summed
+        dict(induct="n", lo=0, hi="N", stmt="forall(0, P, lambda i: forall(0, P, lambda j:"
+             " sumto(n, lambda d: (mapping_matrix[d, i] / noise_map[d]) * (mapping_matrix[d, j] / noise_map[d]))"
+             " == " + _BNB.format(n="n") + "))"),
+    ]},
+    sentence={"not add_to_curvature_diag": "the curvature matrix of the mapping formalism is B^T N^-1 B",
+              "i == j and": "plus only the configured small diagonal term on parameters without regularization"},
 )
 
 
 def _g_fmap(rng, tier):
-    for _ in range(gens.budget(tier, 200, 2000)):
-        n, p = rng.randint(0, 5), rng.randint(0, 3)
-        yield {"mapping_matrix": gens.reals(rng, (n, p), -3, 3, special=False), "noise_map": gens.reals(rng, (n,), 0.3, 2.5, special=False)}
+    for _ in range(gens.budget(tier, 300, 3000)):
+        n, p = rng.randint(0, 5), rng.randint(0, 4)
+        L = rng.randint(0, 3) if p > 0 else 0
+        ix = [rng.randrange(p) for _ in range(L)]
+        if rng.random() < 0.6:
+            ix = sorted(set(ix))
+        yield {"mapping_matrix": gens.reals(rng, (n, p), -3, 3, special=False), "noise_map": gens.reals(rng, (n,), 0.3, 2.5, special=False),
+               "add_to_curvature_diag": rng.random() < 0.6, "no_regularization_index_list": np.array(ix, dtype=int),
+               "settings": np.array([rng.choice([1e-8, 1.0, 0.5, -2.5, 1e-3])])}
 
 
 CONTRACTS[VU + "curvature_matrix_via_mapping_matrix_from"].gen = _g_fmap
